@@ -171,6 +171,25 @@ Theorem Pem_meta_balance_token_kind_refuted :
 Proof. exact meta_balance_token_kind_refuted. Qed.
 Print Assumptions Pem_meta_balance_token_kind_refuted.
 
+(** From the match result to the tree.  [tsum g t] is the sum of [indent_val] over the meta leaves of a tree.
+    [MatchResult::apply] creates exactly one meta per entry of every insert list of a well-formed match ... *)
+From Sq Require Import Apply.Proofs Pem.WfSafe Pem.MetaTree.
+Theorem C12_apply_metas_are_inserts : forall g ts x out,
+  wf (N.of_nat (length ts)) x = true -> apply ts x = Some out -> tsum_l g out = isum g x.
+Proof. exact apply_tsum. Qed.
+Print Assumptions C12_apply_metas_are_inserts.
+
+(** ... so, end to end on the interpreter: for a graph that is balanced and safe ([wf_safe_b], Props/C02.v),
+    plain tokens, any regex oracle and fuel, if the root match on the code span has no unparsable section then
+    the Indent / Implicit / Dedent metas of the File tree [root_parse] builds from it sum to zero. *)
+Theorem Pem_clean_parse_tree_meta_balanced : forall g ptoks rx ts fuel m t,
+  meta_balanced_b g = true -> wf_safe_b g = true -> plain_tokens_b g ptoks = true ->
+  map p_code ptoks = map t_code ts ->
+  parse_root g (toks_of_list ptoks) rx fuel (start_idx ts) (end_idx ts) = ROk m -> clean_b g m = true ->
+  root_parse ts (GOk m) = Some (POk t) -> tsum g t = 0%Z.
+Proof. exact parse_tree_meta_balanced. Qed.
+Print Assumptions Pem_clean_parse_tree_meta_balanced.
+
 (** --- bracket structure, as a theorem about the parser-engine interpreter.
     [brk_safe_b g] is a decidable condition on the dumped grammar graph, evaluated on every dialect's graph
     on every run (coq/gen/PemBrk_<d>.v): the start and end matchers of every bracket set (the dialect's
